@@ -148,14 +148,8 @@ theorem gen_unsigned_roundtrip (n : Nat) (rest : List Nat) (f1 f2 : Nat) (h1 : n
     (h2 : (uencLoop n ++ rest).length + 1 ≤ f2) :
     ∃ bs : List Nat, Gen.Py_leb128.unsigned_leb128_encode f1 (n : Int) = .ok (ints bs) ∧
       Gen.Py_leb128.unsigned_leb128_decode f2 (ints (bs ++ rest)) = .ok ((n : Int), ints rest) := by
-  obtain ⟨bs, hb, _⟩ := gen_unsigned_encode_canonical n f1 h1
-  have e : bs = uencLoop n := by
-    rw [gen_unsigned_encode_eq_model (n : Int) f1 (by omega), (unsigned_encode_canonical n).1] at hb
-    have := Except.ok.inj hb
-    simp only [ints] at this
-    exact (List.map_injective_iff.2 (fun a b h => by simpa using h) this).symm
-  subst e
-  exact ⟨_, hb, gen_unsigned_decode_denotes _ n rest (uenc_val n) f2 h2⟩
+  refine ⟨uencLoop n, ?_, gen_unsigned_decode_denotes _ n rest (uenc_val n) f2 h2⟩
+  rw [gen_unsigned_encode_eq_model (n : Int) f1 (by omega), (unsigned_encode_canonical n).1]; rfl
 
 /-- termination of the four regenerated loops: above the bound the fuel never runs out -/
 theorem gen_loops_terminate (z : Int) (data : List Nat) (f1 f2 : Nat) (h1 : z.natAbs + 1 ≤ f1) (h2 : data.length + 1 ≤ f2) :
